@@ -11,7 +11,7 @@ for f in ("patch.diff", "demo.py"):
     shutil.copy(src / f, dst / f)
 meta = json.loads((src / "meta.json").read_text())
 meta.update({
-    "breaks_property": pid, "round": 2,
+    "breaks_property": pid, "round": int(sys.argv[6]) if len(sys.argv) > 6 else 2,
     "confirmed": "demo.py exits 0/PASS on the clean tree and 1/FAIL with the patch applied (tools/try_seed.sh); the sub-agent reported the baseline suite unchanged (326 passed) with the patch",
     "ran": f"tools/try_seed.sh /verif/seeded/{pid}{suffix}/patch.diff /verif/seeded/{pid}{suffix}/demo.py {pid}",
     "detected_by": detected,
